@@ -120,6 +120,16 @@ func init() {
 		g := &gen{r: r, sc: sc}
 		sc.Setup = g.baseSetup("l1", "100", 3)
 		g.txN = 5
+		withTemplates := r.Chance(0.5)
+		if withTemplates {
+			// a schema carrying query templates of every resource kind: POST /queries/{id}/run is then a read route
+			// whose body (vars, params, cursor) is client input
+			sc.Setup = append(sc.Setup, Op{ID: g.id("s"), Kind: KSchema, Ledger: "l1", SchemaVersion: "s.q", Schema: json.RawMessage(`{"chart":{"world":{},"bank":{},"u":{"$id":{".pattern":"^[0-9]+$"}}},"queries":{`+
+				`"QT":{"resource":"transactions","vars":{"ref":"string"},"body":{"$match":{"reference":"${ref}"}}},`+
+				`"QA":{"resource":"accounts","vars":{"a":{"type":"string","default":"u:"}},"body":{"$match":{"address":"${a}"}}},`+
+				`"QL":{"resource":"logs","params":{"pageSize":2}},`+
+				`"QV":{"resource":"volumes","params":{"pageSize":2}}}}`)})
+		}
 		nc := 1 + r.Intn(2)
 		for c := 0; c < nc; c++ {
 			var ops []Op
@@ -140,6 +150,11 @@ func init() {
 					hdr := Pick(r, []string{"//script", "//script ik", "//script ik=", "//script ik=a,ik=b", "//script foo=bar", "//script =", "//script ,", "//script ik=a,", "// script", "//scriptik=a", "//script ik=a=b", "//script\tik=x"})
 					body := hdr + "\nsend [USD 1] (\n  source = @world\n  destination = @bank\n)\n" + Pick(r, []string{"//end\n", "", "//end", "//end\n//script ik\n"})
 					req := Request{Method: "POST", Path: "/v2/l1/_bulk", Header: map[string]string{"Content-Type": "application/vnd.formance.ledger.api.v2.bulk+script-stream"}, Body: body, Chunked: Pick(r, []int{7, 1 << 20})}
+					ops = append(ops, Op{ID: fmt.Sprintf("c%d.%d", c, i), Kind: KRaw, Ledger: "l1", Raw: &req})
+					continue
+				}
+				if withTemplates && r.Chance(0.2) {
+					req := fuzzRunQuery(r)
 					ops = append(ops, Op{ID: fmt.Sprintf("c%d.%d", c, i), Kind: KRaw, Ledger: "l1", Raw: &req})
 					continue
 				}
@@ -202,12 +217,17 @@ func b64(x string) string { return base64.RawURLEncoding.EncodeToString([]byte(x
 var badCursors = []string{"x", "%00", "e30", "bnVsbA", b64(`{"offset":"x"}`), b64(`{"offset":-1}`), b64(`{"offset":18446744073709551615,"pageSize":15}`),
 	b64(`{"pageSize":1e99}`), b64(`{"pageSize":-1,"column":"id"}`), b64(`{"column":"id","paginationID":"abc","order":7}`), b64(`{"column":"id","paginationID":{"a":1}}`),
 	b64(`{"column":"id","order":"desc","pageSize":2,"options":{"pit":"notadate"}}`), b64(`{"column":"id","pageSize":2,"options":{"qb":{"$match":{"id":[1]}}}}`),
-	b64(`{"column":"id","pageSize":2,"options":{"qb":12,"expand":7}}`), b64(`[1,2]`), b64(`"str"`), b64(`{"offset":0,"pageSize":3,"options":null}`), strings.Repeat("A", 5000)}
+	b64(`{"column":"id","pageSize":2,"options":{"qb":12,"expand":7}}`), b64(`[1,2]`), b64(`"str"`),
+	b64(`{"column":"id","paginationID":0,"order":1,"pageSize":2}`), b64(`{"column":"id","paginationID":0,"order":0,"pageSize":2,"reverse":true}`), b64(`{"column":"id","paginationID":99,"order":0,"pageSize":2}`),
+	b64(`{"column":"id","order":2,"pageSize":2}`), b64(`{"column":"id","order":-1,"pageSize":2}`), b64(`{"column":"address","order":0,"pageSize":2}`), b64(`{"column":"address","paginationID":"world","order":0,"pageSize":2}`),
+	b64(`{"column":"reference","order":0,"pageSize":2}`), b64(`{"column":"id","paginationID":1,"bottom":5,"order":1,"pageSize":1,"reverse":true}`), b64(`{"offset":15,"pageSize":15}`), b64(`{"offset":0,"pageSize":2,"column":"account","order":0}`),
+	b64(`{"offset":1,"pageSize":0,"column":"address","order":0}`), b64(`{"column":"timestamp","paginationID":"2000-01-01T00:00:00Z","order":1,"pageSize":2}`), b64(`{"column":"nope","order":1,"pageSize":2}`), b64(`{"offset":0,"pageSize":3,"options":null}`), strings.Repeat("A", 5000)}
 
 var badParams = []string{"sort=reference", "sort=metadata:desc", "sort=type", "sort=balance", "sort=reverted:asc", "pageSize=abc", "pageSize=-1", "pageSize=99999999999999999999", "pageSize=0", "pit=notadate", "pit=2024-13-45T99:00:00Z", "oot=1", "pit=&oot=%ff",
 	"expand=volumes,foo", "sort=bad:sideways", "sort=:desc", "sort=id:asc", "query=%7B", "query=12", "query=%7B%22%24match%22%3A%7B%22id%22%3A%22x%22%7D%7D", "after=abc", "start_time=bad", "end_time=bad",
 	"pagination_token=zzz", "page_size=x", "reference=%00", "metadata[a]=b", "startTime=x", "endTime=y", "insertedAt=z", "useInsertionDate=maybe", "dryRun=2", "force=x",
 	"pit=2000-01-01T00:00:00Z", "expand=volumes", "expand=effectiveVolumes", "useInsertionDate=true", "groupBy=1", "groupBy=x", "groupBy=-1", "startTime=1999-01-01T00:00:00Z", "endTime=2001-01-01T00:00:00Z", "insertionDate=true",
+	"sort=reverted_at", "sort=reverted_at:asc", "sort=inserted_at:asc", "sort=timestamp:asc", "sort=updated_at", "sort=first_usage", "sort=insertion_date:desc", "sort=date", "sort=effective",
 	"address=u:", "address=%00", "balance=5", "balanceOperator=nope", "balanceOperator=gte", "account=world", "source=u:1", "destination=%ff", "after=3", "metadata[k]=v"}
 
 var badQueryBodies = []string{"{", "12", "[]", `"x"`, `{"$match":12}`, `{"$match":{"id":{"a":1}}}`, `{"$and":{}}`, `{"$or":[1,2]}`, `{"$lt":{"id":"x"}}`, `{"$nope":{"id":1}}`,
@@ -223,7 +243,36 @@ var fieldFilters = []string{`{"$lt":{"balance":100}}`, `{"$gt":{"balance[USD]":0
 	`{"$gte":{"timestamp":"x"}}`, `{"$lt":{"timestamp":"2000-01-01T00:00:00Z"}}`, `{"$match":{"reference":12}}`, `{"$match":{"reference":"ref-0"}}`, `{"$match":{"reverted":"maybe"}}`, `{"$match":{"reverted":true}}`,
 	`{"$match":{"account":"u:1"}}`, `{"$match":{"source":"world"}}`, `{"$match":{"destination":12}}`, `{"$match":{"id":"x"}}`, `{"$lt":{"id":2}}`, `{"$match":{"id":1.5}}`, `{"$match":{"id":-1}}`, `{"$match":{"id":99999999999999999999}}`,
 	`{"$match":{"type":"NEW_TRANSACTION"}}`, `{"$match":{"date":"x"}}`, `{"$gte":{"date":"2000-01-01T00:00:00Z"}}`, `{"$match":{"ledger":"l2"}}`, `{"$match":{"inserted_at":"x"}}`,
+	`{"$in":{"type":["NEW_TRANSACTION"]}}`, `{"$exists":{"balance":1}}`, `{"$exists":{"balance[USD]":true}}`, `{"$in":{"source":["u:"]}}`, `{"$in":{"destination":["a::b"]}}`, `{"$in":{"account":["world","u:"]}}`, `{"$in":{"balance":[1,2]}}`,
+	`{"$match":{"metadata[balance[USD]]":1}}`, `{"$lt":{"metadata[balance[USD]]":5}}`, `{"$like":{"reference":"r%"}}`, `{"$in":{"id":[1,"x"]}}`, `{"$in":{"reference":["ref-0",1]}}`, `{"$in":{"timestamp":["x"]}}`, `{"$exists":{"id":true}}`, `{"$lt":{"address":"u:"}}`, `{"$gt":{"reverted":true}}`,
 	`{"$and":[{"$match":{"address":"u:"}},{"$gt":{"balance[USD]":0}}]}`, `{"$or":[{"$match":{"metadata[k]":"v"}},{"$lt":{"balance":5}}]}`, `{"$not":{"$match":{"address":"world"}}}`, `{"$not":{"$exists":{"metadata":"k"}}}`}
+
+// fuzzRunQuery: POST /v2/l1/queries/{id}/run on the templates of schema s.q, with confused vars, params and cursors.
+func fuzzRunQuery(r *RNG) Request {
+	id := Pick(r, []string{"QT", "QA", "QL", "QV", "QV", "nope", "%00"})
+	path := "/v2/l1/queries/" + id + "/run" + Pick(r, []string{"?schemaVersion=s.q", "?schemaVersion=s.q", "?schemaVersion=s.q", "", "?schemaVersion=none", "?schemaVersion=%00"})
+	body := map[string]any{}
+	if r.Chance(0.5) {
+		body["vars"] = Pick(r, []any{map[string]any{"ref": "ref-0"}, map[string]any{"ref": 12}, map[string]any{"a": "u:1"}, map[string]any{"a": nil}, map[string]any{"a": []any{1}}, map[string]any{"zz": "x"}, "x", []any{}, map[string]any{"a": map[string]any{"b": 1}}})
+	}
+	if r.Chance(0.4) {
+		body["params"] = Pick(r, []any{map[string]any{"pageSize": 1}, map[string]any{"pageSize": "x"}, map[string]any{"pageSize": -1}, map[string]any{"sort": "id:sideways"}, map[string]any{"sort": "id:asc"}, map[string]any{"sort": ":"},
+			map[string]any{"sort": "metadata"}, map[string]any{"endTime": "x"}, map[string]any{"endTime": "2000-01-01T00:00:00Z"}, map[string]any{"startTime": "1999-01-01T00:00:00Z"}, map[string]any{"expand": []any{"volumes", "foo"}},
+			map[string]any{"expand": "volumes"}, map[string]any{"groupBy": 1}, map[string]any{"groupLvl": -1}, map[string]any{"useInsertionDate": "maybe"}, "x", 12, nil})
+	}
+	if r.Chance(0.5) {
+		body["cursor"] = Pick(r, badCursors)
+		if r.Chance(0.1) {
+			body["cursor"] = 12
+		}
+	}
+	b, _ := json.Marshal(body)
+	req := Request{Method: "POST", Path: path, Header: map[string]string{"Content-Type": "application/json"}, Body: string(b)}
+	if r.Chance(0.15) {
+		req.Body = mutateBody(r, req.Body)
+	}
+	return req
+}
 
 // fuzzRead: read routes whose query string, cursor and body are decided by the API layer (dates, page
 // sizes, cursors, query JSON). Filters are checked by SQL-building storage code that is not in the
